@@ -107,3 +107,78 @@ def check_c05(tier):
 def live_versions(findings, tier):
     """Header policy against a live versioned server (added with the live-server drivers)."""
     return {}
+
+
+def check_c11(tier):
+    import os
+    import subprocess
+    t0 = time.time()
+    vlib.build_harness()
+    findings = vlib.Findings("C11")
+    thorough = tier != "quick"
+    # ---- (M) + (R): all frame sequences, replayed into a real StreamingBody ----
+    cfgname = "MC_BodyLimit_run.cfg"
+    cfg = "\n".join([
+        "SPECIFICATION MCSpec", "CONSTANTS",
+        "  MaxCap = %d" % (5 if not thorough else 7), "  MaxTotal = %d" % (6 if not thorough else 8),
+        "  MaxFrames = %d" % (4 if not thorough else 5),
+        "INVARIANT NeverOverCap", "INVARIANT Verdict", "INVARIANT EmitVec", "PROPERTY Terminates",
+        "CHECK_DEADLOCK FALSE", ""])
+    res = vlib.run_tlc("C11-bodylimit", "MC_BodyLimit.tla", cfgname, workers=12, timeout=3000,
+                       extra_files={cfgname: cfg}, heap="12g", coverage=False)
+    vlib.tlc_ok(res, "bodylimit")
+    if res.violated:
+        findings.add({"engine": "bodylimit-model", "kind": "invariant:" + str(res.violated), "shape": "other"},
+                     {"tlc_trace": res.trace[-4000:]})
+    results = vlib.run_replay("replay_bodylimit", res.vectors_path)
+    nm = _replay_findings(findings, results, "C11", "bodylimit",
+                          "the real StreamingBody disagrees with BodyLimit.tla on this frame sequence")
+    samples = [{"vector": json.loads(r["_vector"]), "instantiation": r.get("inst")}
+               for r in results[len(results) // 2: len(results) // 2 + 2]]
+    # ---- (T): wire level, every extractor x limit configuration x size x framing ----
+    outdir = os.path.join(vlib.WORK, "body")
+    os.makedirs(outdir, exist_ok=True)
+    path = os.path.join(outdir, "trace.ndjson")
+    rounds = 2 if not thorough else 12
+    p = subprocess.run([vlib.harness_bin("drive_body"), str(rounds), path],
+                       env=dict(os.environ, VERIF_SEED=str(vlib.seed())),
+                       stdout=subprocess.PIPE, stderr=subprocess.PIPE, text=True, timeout=3000)
+    if p.returncode != 0:
+        raise vlib.ToolError("drive_body failed: %s" % p.stderr[-2000:])
+    neps, nev, rejects, states = vlib.validate_trace_episodes(
+        "C11-trace", "TraceBodyLimit.tla", "TraceBodyLimit.cfg", path, max_rejects=400)
+    for payload, cnt in vlib.validate_trace_episodes.known.items():
+        k = json.loads(payload)
+        for _ in range(cnt):
+            st = findings.add({"engine": "bodylimit-trace", "kind": k["kind"], "shape": k["shape"]}, {})
+            if st != "known":
+                raise vlib.ToolError("spec says known but known_findings.json does not: %s" % payload)
+    for rj in rejects:
+        hdr = rj["episode_header"]
+        ev = rj["event"]
+        over = hdr.get("total", 0) > hdr.get("cap", 0)
+        accepted = (ev.get("ev") == "client_recv" and 200 <= ev.get("status", 0) <= 299) or \
+                   (ev.get("ev") == "handler_body" and ev.get("seen", 0) > hdr.get("cap", 0))
+        kind = "over-cap-accepted" if over and accepted else \
+            (rj["invariant"] or "unexplained:" + str(ev.get("ev")))
+        findings.add({"engine": "bodylimit-trace", "kind": kind, "shape": hdr.get("kind", "?")},
+                     {"request": hdr, "rejected_event": ev, "state_before": rj["state_before"],
+                      "episode_events": rj["episode"],
+                      "note": "no behaviour of BodyLimit.tla explains what the real server did with this body"})
+    rc = findings.report()
+    vlib.write_evidence(
+        "C11", tier, "model_checking",
+        {"states": res.distinct + states, "transitions": res.generated + states,
+         "traces_validated_against_impl": len(results) + neps, "samples": samples,
+         "frame_sequences_replayed": len(results), "replay_mismatches": nm,
+         "wire_requests_validated": neps, "wire_events": nev, "wire_rejections": len(rejects),
+         "exhaustive": True,
+         "rule": "every frame sequence (data frames incl. empty ones, trailers) with total <= MaxTotal for every cap "
+                 "0..MaxCap is one behaviour of BodyLimit.tla, replayed frame by frame into a real StreamingBody "
+                 "(lengths scaled by a random unit); at wire level every extractor x {server default, smaller, larger "
+                 "override} x sizes {0,1,cap/2,cap-1,cap,cap+1,cap+k,2cap,3cap or 64cap} x {content-length, chunked, "
+                 "chunked with extensions and trailers} is one trace episode validated by TraceBodyLimit.tla"},
+        ["hyper decides the frame boundaries at wire level; the body_frame hook logs the frames actually seen",
+         "one request at a time per server so that body_frame events can be attributed"],
+        time.time() - t0, len(findings.violations))
+    return rc
